@@ -206,7 +206,17 @@ def content_doc(rng):
             kids.append("<%s>%s</%s>" % (k, rng.choice(["Jane", "jane@example.org", "http://example.org/jane", "rel/jane", "", " J "]), k))
         return "<%s>%s%s</%s>" % (outer, rng.choice(["", "", "text "]), "".join(kids), outer)
 
+    def gc(atom):
+        """cloud and generator"""
+        if rng.random() < 0.4:
+            return '<cloud domain="rpc.example" port="80" path="/RPC2" registerProcedure="p" protocol="xml-rpc"%s/>' % rng.choice(["", ' url="u"', ">text</cloud><x"]).replace('><x/>', '>') if False else \
+                rng.choice(['<cloud domain="rpc.example" port="80" path="/RPC2"/>', '<cloud/>', '<cloud domain="d">text</cloud>'])
+        attrs = "".join(' %s="%s"' % (an, rng.choice(["http://example.org/gen", "rel/gen", "", "1.0"])) for an in rng.sample(["uri", "url", "href", "version"], rng.randint(0, 3)))
+        return "<generator%s>%s</generator>" % (attrs, rng.choice(["Example Generator", "", " G 1.0 ", "Tom &amp; Jerry"]))
+
     def el(name, atom):
+        if name == "@gc":
+            return gc(atom)
         if name == "@au":
             return au(atom) if rng.random() < 0.85 else rng.choice(["<name>stray</name>", "<email>s@x.example</email>", "<uri>stray/u</uri>"])
         if name == "@lg":
@@ -236,7 +246,7 @@ def content_doc(rng):
     # stage 3: summary / description / content in every order (a second description becomes content; content before description; content:encoded)
     entry_names = (["title", "rights", "dc:rights", "dc:title", "itunes:subtitle", "x:other", "summary", "content", "summary", "itunes:summary", "content", "media:description", "abstract"] if atom else
                    ["title", "dc:rights", "dc:title", "itunes:subtitle", "copyright", "x:other", "description", "cenc:encoded", "description", "itunes:summary", "fullitem", "dc:description", "content", "abstract"])
-    feed_names = feed_names + ["@lg", "@lg", "@ce", "@au", "@au"]
+    feed_names = feed_names + ["@lg", "@lg", "@ce", "@au", "@au", "@gc", "@gc"]
     entry_names = entry_names + ["@lg", "@lg", "@lg", "@lg", "@ce", "@ce", "@ce", "@ce", "@au", "@au", "@au", "@au"]
     fmeta = "".join(el(n, atom) for n in rng.sample(feed_names, rng.randint(1, 4)))
     entries = ""
